@@ -611,6 +611,7 @@ def rule_load_fresh(chk, prog):
                           isinstance(v, ast.Call) and pf.call_name(v) in ("dict", "list", "set", "OrderedDict",
                                                                           "collections.OrderedDict", "WeakValueDictionary"))}
         bad = None
+        mapped = None
         for f_ in fns:
             for n in pf.walk_no_nested(f_):
                 root = None
@@ -623,6 +624,17 @@ def rule_load_fresh(chk, prog):
             for dec in f_.decorator_list:
                 if "cache" in pf.src(dec):
                     bad = (dec, pf.src(dec), f_)
+            # the loaded object must own its data: a memory-mapped load (joblib/numpy mmap_mode, np.memmap,
+            # mmap.mmap) leaves the arrays backed by the file, so overwriting the file changes a model that was
+            # loaded before
+            for n in pf.walk_no_nested(f_):
+                if not isinstance(n, ast.Call):
+                    continue
+                mm = [k for k in n.keywords if k.arg == "mmap_mode"
+                      and not (isinstance(k.value, ast.Constant) and k.value.value is None)]
+                cn = pf.call_name(n) or ""
+                if mm or cn.split(".")[-1] in ("memmap", "open_memmap") or cn in ("mmap.mmap", "mmap"):
+                    mapped = (n, f_)
         inst = "%s:%s reads the file on every call" % (rel, qual)
         if bad:
             n, root, f_ = bad
@@ -632,6 +644,15 @@ def rule_load_fresh(chk, prog):
                           instance=inst)
         else:
             chk.ok("load-fresh", inst)
+        inst2 = "%s:%s returns objects that own their data (no memory-mapped load)" % (rel, qual)
+        if mapped:
+            n, f_ = mapped
+            chk.violation("load-fresh", rel, qual, pf.src(n), n.lineno,
+                          "the loader memory-maps the file (in %s): the returned model's arrays stay backed by the "
+                          "file, so a later save to the same path silently changes the already loaded model" % f_.name,
+                          instance=inst2)
+        else:
+            chk.ok("load-fresh", inst2)
 
 
 def analyse(chk):
@@ -684,7 +705,7 @@ def analyse(chk):
     chk.floor("attr-loop", 40, "ctor parameters of 21 maps + SplineSetEvaluator + analyzer keys")
     chk.floor("state-coverage", 30, "attributes read by fill_feat_/fill_deriv_/bounds")
     chk.floor("reject", 3, "registry dispatch, model-format ladder(s), analyzer-type ladder")
-    chk.floor("load-fresh", 3, "four loaders")
+    chk.floor("load-fresh", 4, "four loaders x (fresh read, owns data)")
     chk.floor("loader", 2, "FeatureList.load, XCEvalSerializable.load, load_cider_model")
     chk.assumptions += [
         "evaluation is a deterministic function of the attributes restored by from_dict",
@@ -717,6 +738,7 @@ def mutants(tree):
         Mutant("analyzer grid level falls back", AN, '"grids_level": d["grids_level"],', '"grids_level": d.get("grids_level") or 3,', expect="falsy-default"),
         Mutant("loader memo", TD, '    @classmethod\n    def load(cls, fname):\n        with open(fname, "r") as f:\n            d = yaml.load(f, Loader=yaml.Loader)\n        return cls.from_dict(d)',
                '    @classmethod\n    def load(cls, fname):\n        if fname in _LOADED:\n            return _LOADED[fname]\n        with open(fname, "r") as f:\n            d = yaml.load(f, Loader=yaml.Loader)\n        _LOADED[fname] = cls.from_dict(d)\n        return _LOADED[fname]\n\n\n_LOADED = {}', expect="load-fresh"),
+        Mutant("memory-mapped joblib load", MU, "joblib.load(mlfunc)", 'joblib.load(mlfunc, mmap_mode="r")', expect="load-fresh"),
         Mutant("unregister a map", TD, "    SLDMap,\n    OmegaMap,", "    OmegaMap,", expect="code-table"),
     ]
 
